@@ -100,9 +100,9 @@ func TestVF_C32(t *testing.T) {
 	r := vfkit.Start(t, "C32")
 	defer r.Finish()
 	r.Rule("three drivers on the fault bucket, each call bracketed by t0/t1 and judged with t1 (one-directional, load can only hide, never alarm): " +
-		"(A) ApplyRetentionPolicyByResolution on 1..8 metas x 3 resolutions x retention {0, 1h..365d, whole seconds or with a ms part}, block MaxTime placed at now-retention+offset with offset in +-{0,1ms,30ms,400ms,999ms,1s,2s,1h} and with a controlled ms fraction of 999; marked => t1-(MaxTime-1ms) > retention, retention 0 => never marked; " +
+		"(A) ApplyRetentionPolicyByResolution on 1..8 metas x 3 resolutions x retention {0, 1h..365d, whole seconds or with a ms part}, block MaxTime placed at now-retention+offset with offset in +-{0,1ms,30ms,400ms,999ms,1s,2s,1h} and with a controlled ms fraction of 999, plus far-past / far-future / sentinel MaxTime values (now +-10..1000 years, 0, -1, MaxInt64, MinInt64 and fractions; exact big-integer oracle); marked => t1-(MaxTime-1ms) > retention, retention 0 => never marked; " +
 		"(B) BlocksCleaner.DeleteMarkedBlocks behind a real MetaFetcher+IgnoreDeletionMarkFilter on 1..6 blocks with/without deletion marks whose DeletionTime is now-delay+k seconds (k in +-{0,1,2,3600}, future marks), delete delay {0,1s,30m,2h,48h}; any object removed => the block had a mark and t1-DeletionTime > delay; " +
-		"(C) BestEffortCleanAbortedPartialUploads on 1..6 partial/complete blocks whose objects get served LastModified = now-threshold+offset (or no LastModified at all -> ULID time), with/without deletion marks, arguments taken from the real fetcher/filter or passed directly; removed => block was partial, not in the given deletion-mark set, t1-last touch > PartialUploadThresholdAge; " +
+		"(C) BestEffortCleanAbortedPartialUploads on 1..6 partial/complete blocks whose objects get served LastModified = now-threshold+offset (or no LastModified at all -> ULID time; or an attribute listing of the block that fails before / after 1 / after 2 entries while plain Iter/Get/Delete work -> ULID time), with/without deletion marks, arguments taken from the real fetcher/filter or passed directly; removed => block was partial, not in the given deletion-mark set, t1-last touch > PartialUploadThresholdAge; " +
 		"distinct = hash of (driver, configuration, offset, ms fraction); non-trivial = finite retention / marked block / partial block")
 	n := r.N(700, 80000)
 	r.Require(int64(3*n), n)
